@@ -746,12 +746,21 @@ impl<F: Read + Write + Seek> Package<F> {
     }
 
     fn check_rows_are_valid(
-        &self,
+        &mut self,
         table_name: &str,
         rows: &[Vec<Value>],
     ) -> io::Result<()> {
-        let table = self.tables.get(table_name).unwrap();
+        let table = self.tables.get(table_name).unwrap().clone();
         for values in rows.iter() {
+            // (A malformed file can describe the catalog tables differently.)
+            if values.len() != table.columns().len() {
+                invalid_data!(
+                    "Table {:?} has {} columns instead of {}",
+                    table_name,
+                    table.columns().len(),
+                    values.len()
+                );
+            }
             for (column, value) in table.columns().iter().zip(values.iter()) {
                 if !column.is_valid_value(value) {
                     invalid_input!(
@@ -761,6 +770,28 @@ impl<F: Read + Write + Seek> Package<F> {
                         table_name
                     );
                 }
+            }
+        }
+        // Rows left behind in the table (e.g. `_Validation` rows for a table
+        // that isn't in the database) must not collide with the new ones.
+        let key_indices = table.primary_key_indices();
+        let existing_keys: HashSet<Vec<Value>> = self
+            .select_rows(Select::table(table_name))?
+            .map(|row| {
+                key_indices.iter().map(|&index| row[index].clone()).collect()
+            })
+            .collect();
+        for values in rows.iter() {
+            let keys: Vec<Value> = key_indices
+                .iter()
+                .map(|&index| values[index].clone())
+                .collect();
+            if existing_keys.contains(&keys) {
+                already_exists!(
+                    "Table {:?} already contains a row with key {:?}",
+                    table_name,
+                    keys
+                );
             }
         }
         Ok(())
